@@ -308,12 +308,18 @@ def i_coq(it):
 
 
 def read_all(repo=None):
-    """-> dict prefix -> {"class","sample","support"} ; raises Unsupported"""
+    """-> dict prefix -> {"class","file","sample","support"} or {"class","file","error"} (fail-closed per family:
+    no definition is generated for a family whose methods leave the subset, so the theorems about it break)"""
     repo = repo or lib.REPO
     out = {}
     for cls, fn, prefix in FAMILIES:
-        r = FamilyReader(cls, fn, os.path.join(repo, "program", "distribution", fn))
-        out[prefix] = {"class": cls, "file": fn, "sample": r.sample(), "support": r.support()}
+        try:
+            r = FamilyReader(cls, fn, os.path.join(repo, "program", "distribution", fn))
+            out[prefix] = {"class": cls, "file": fn, "sample": r.sample(), "support": r.support()}
+        except Unsupported as e:
+            out[prefix] = {"class": cls, "file": fn, "error": str(e)}
+        except (OSError, SyntaxError) as e:
+            out[prefix] = {"class": cls, "file": fn, "error": f"{fn}: {type(e).__name__}: {e}"}
     return out
 
 
@@ -323,6 +329,9 @@ def render(desc):
          "Import ListNotations.\nOpen Scope string_scope.\n\n")
     for _, _, prefix in FAMILIES:
         d = desc[prefix]
+        if "error" in d:
+            s += f"(* {d['class']}: NOT TRANSLATED: " + d["error"].replace("*", "x").replace("(", "[").replace(")", "]") + " *)\n\n"
+            continue
         s += f"(* {d['class']}.sample / get_support  ({d['file']}) *)\n"
         s += f"Definition {prefix}_sample : sdesc := {d_coq(d['sample'])}.\n"
         s += f"Definition {prefix}_support : list sitem := [" + "; ".join(i_coq(i) for i in d["support"]) + "].\n\n"
